@@ -248,18 +248,49 @@ QUAL = [''.join(chr(33 + (i % 52)) for i in range(READLEN)),
         ''.join(chr(33 + ((7 * i + 13) % 52)) for i in range(READLEN))]
 HEADER = '@NS500414:628:H7YVNBGXC:1:11101:15963:1046 {m}:N:0:ATCACG'
 
+# ---- variants of the position code (audit extension; bases and qualities can be varied independently): variant v > 0 shifts the de-Bruijn window of both mates by 3*v
+# bases (the mates stay on disjoint stretches: no shared 5-mer), rotates both quality codes by v (so that every
+# position sees every phred value 0..51 over v = 0..51) and puts one more N at position (v-1) % 20 of both mates
+# (UMI, ligation, primer and early insert positions).  v = 0 is exactly the original code.  A third mate (3-read
+# input) has its own disjoint stretch and quality step.
+VARIANTS = 52
+_W3 = _DB[20:20 + READLEN]
 
-def build_reads(plant, l1, l2):
+
+def _vword(mate, v):
+    if v == 0:
+        return WORD[mate]
+    off = (300, 700)[mate] + 3 * v
+    w = list(_DB[off:off + READLEN])
+    for p in N_POS + ((v - 1) % 20,):
+        w[p] = 'N'
+    return ''.join(w)
+
+
+def _vqual(mate, v):
+    if mate == 0:
+        return ''.join(chr(33 + ((i + v) % 52)) for i in range(READLEN))
+    if mate == 1:
+        return ''.join(chr(33 + ((7 * i + 13 + v) % 52)) for i in range(READLEN))
+    return ''.join(chr(33 + ((11 * i + 5 + v) % 52)) for i in range(READLEN))
+
+
+def build_reads(plant, l1, l2, v=0, l3=None, q=None):
     """plant: [[mate, start, bases], ...] written over the position-coded words (later entries win),
-    then both mates are cut to their length. Returns [(header, seq, '+', qual), (..)]"""
-    w = [list(WORD[0]), list(WORD[1])]
+    then the mates are cut to their length. Returns [(header, seq, '+', qual), (..)] (+ a third mate when l3 is given).
+    v = variant of the bases, q = rotation of the quality code (default: the same as v)"""
+    if q is None:
+        q = v
+    w = [list(_vword(0, v)), list(_vword(1, v))]
+    if l3 is not None:
+        w.append(list(_W3))
     for mate, start, bases in plant:
         for i, c in enumerate(bases):
             if 0 <= start + i < READLEN:
                 w[mate][start + i] = c
     out = []
-    for mate, ln in ((0, l1), (1, l2)):
-        out.append((HEADER.format(m=mate + 1), ''.join(w[mate])[:ln], '+', QUAL[mate][:ln]))
+    for mate, ln in ((0, l1), (1, l2)) + (((2, l3),) if l3 is not None else ()):
+        out.append((HEADER.format(m=mate + 1), ''.join(w[mate])[:ln], '+', _vqual(mate, q)[:ln]))
     return out
 
 
